@@ -37,6 +37,7 @@ func verifReset(vec []int64, tier int) {
 	verifNative.observes = nil
 	verifNative.monitors = map[string]bool{}
 	verifNative.monitorHits = nil
+	verifSchedReset()
 }
 
 func verifCleanup() {
@@ -116,6 +117,7 @@ func VerifTempDir() string {
 		panic(err)
 	}
 	verifNative.dirs = append(verifNative.dirs, d)
+	verifSched.dir = d
 	return d
 }
 
